@@ -17,6 +17,14 @@ def gen_cases(seed, tier):
         for n in (250, 253, 255, 256, 65535, 65536):
             add(comp, 0, [("y", "mem", "g:%d:%d:r" % (n, n))])
     add("none", 0, [])
+    # the deduplicating adder hashes contents of one cluster size (4 MiB) and more through another path:
+    # first occurrences around that size, every hint, memory and file sources, then their duplicates
+    for comp in (["zstd:1"] if tier == "quick" else ["zstd:1", "lz4:3", "none"]):
+        big = [("y", "mem", "g:4194304:21:t"), ("y", "file", "g:4194305:22:t"), ("n", "mem", "g:4194304:23:r"), ("d", "mem", "g:4200000:24:t"),
+               ("y", "mem", "g:4194303:25:t"), ("n", "file", "g:4194310:26:t")]
+        if tier == "quick":
+            big = [big[0], big[5], big[4]]
+        add(comp, 1, big + [("y", "mem", "g:7:1:t")] + [big[0], big[1]])
     add("zstd:5", 0, [("d", "mem", "g:0:1:z"), ("y", "mem", "g:0:2:z"), ("n", "file", "g:0:3:z")])
     # exhaustive small: every sequence of <= 3 items over 4 length classes x 3 hints (quick: <= 2)
     small = [0, 1, 255, 300]
